@@ -480,6 +480,11 @@ CycCase(f, g) == CycCase3(f, g, Bisim(g))
 Loop(init, step) == "(let loop ((i 0) (acc " \o init \o ")) (if (< i n) (loop (+ i 1) " \o step \o ") acc))"
 Shape(name, pre, mk, down, flat, eqcopy, src) ==
   [name |-> name, pre |-> pre, mk |-> mk, down |-> down, flat |-> flat, eqcopy |-> eqcopy, src |-> src]
+\* Shapes whose CONSTRUCTION is quadratic in Steel (measured; a cost of building, not of an operation
+\* on the value): a map used as key is re-hashed to its full depth at every level; hash-insert in a
+\* (depth 4000: 0.6 s, 10^4: > 20 s with the walk); hash-insert in a loop copies (10^4 entries 3 s,
+\* 4*10^4 entries 46 s).  Their depth is capped.
+Cap(name) == IF name = "hashk" THEN 3000 ELSE IF name = "widehash" THEN 10000 ELSE 1000000
 DeepShapes == <<
   Shape("list",    "", Loop("(list bot)", "(cons 0 acc)"),            "(cdr v)",                 TRUE,  TRUE,  ""),
   Shape("cdr",     "", Loop("bot", "(cons 0 acc)"),                   "(cdr v)",                 FALSE, TRUE,  ""),
@@ -491,7 +496,7 @@ DeepShapes == <<
   Shape("box",     "", Loop("bot", "(box acc)"),                      "(unbox v)",               FALSE, TRUE,  ""),
   Shape("mvec",    "", Loop("bot", "(vector acc)"),                   "(vector-ref v 0)",        FALSE, TRUE,  ""),
   Shape("closure", "", Loop("bot", "(let ((prev acc)) (lambda () prev))"), "(v)",                FALSE, FALSE, ""),
-  Shape("stream",  "", Loop("bot", "(stream-cons 0 acc)"),            "(stream-cdr v)",          FALSE, FALSE, ""),
+  Shape("stream",  "", Loop("bot", "(stream-cons 0 (let ((prev acc)) (lambda () prev)))"), "((#%stream-cdr v))", FALSE, FALSE, ""),
   Shape("widevec", "", "(let ((w (make-vector (+ n 1) 0))) (vector-set! w n bot) w)", "",        TRUE,  TRUE,  ""),
   Shape("widehash","", "(let loop ((i 0) (acc (hash 'bot bot))) (if (< i n) (loop (+ i 1) (hash-insert acc i 0)) acc))", "", TRUE, TRUE, ""),
   \* deep NON-TAIL recursion producing the value
@@ -522,7 +527,10 @@ WLen(sh, d) == IF sh.name \in {"list", "rec"} THEN 2 * (d + 1) + 1
 DeepSetup(sh, d) ==
   (IF sh.pre = "" THEN << >> ELSE <<Step(sh.pre, "ok", NoEmit, NoVal)>>)
   \o (IF sh.src = "" THEN <<Step("(define (c18mk@@ n bot) " \o sh.mk \o ")", "ok", NoEmit, NoVal)>> ELSE << >>)
-  \o <<Step("(define c18v@@ " \o ValExpr(sh, d, "0") \o ")", "noncrash", NoEmit, NoVal)>>
+  \* defined first, assigned second: if building fails with an error VALUE (allowed), the later steps
+  \* still find the variable
+  \o <<Step("(define c18v@@ 0)", "ok", NoEmit, NoVal), Step("(define c18w@@ 0)", "ok", NoEmit, NoVal),
+       Step("(begin (set! c18v@@ " \o ValExpr(sh, d, "0") \o ") 0)", "noncrash", NoEmit, "0")>>
 PrintStep(sh, d, fn) ==
   IF WLen(sh, d) > 0
   THEN Step("(string-length (call-with-output-string (lambda (p) (" \o fn \o " c18v@@ p))))", "noncrash", NoEmit, ToString(WLen(sh, d)))
@@ -534,12 +542,12 @@ SendDeep(inner) ==
   \o inner \o "))"
 DeepOpSteps(op, sh, d) ==
   CASE op = "create"  -> <<Step(Walk(sh, d, "c18v@@"), "noncrash", NoEmit, "0")>>
-    [] op = "equal"   -> <<Step("(define c18w@@ " \o ValExpr(sh, d, "0") \o ")", "noncrash", NoEmit, NoVal),
+    [] op = "equal"   -> <<Step("(begin (set! c18w@@ " \o ValExpr(sh, d, "0") \o ") 0)", "noncrash", NoEmit, "0"),
                            Step("(equal? c18v@@ c18w@@)", "noncrash", NoEmit, IF sh.eqcopy THEN "#true" ELSE NoVal)>>
-    [] op = "equalm"  -> <<Step("(define c18w@@ " \o ValExpr(sh, d, "1") \o ")", "noncrash", NoEmit, NoVal),
+    [] op = "equalm"  -> <<Step("(begin (set! c18w@@ " \o ValExpr(sh, d, "1") \o ") 0)", "noncrash", NoEmit, "0"),
                            Step("(equal? c18v@@ c18w@@)", "noncrash", NoEmit, IF sh.eqcopy THEN "#false" ELSE NoVal)>>
     [] op = "hash"    -> IF sh.eqcopy
-                         THEN <<Step("(define c18w@@ " \o ValExpr(sh, d, "0") \o ")", "noncrash", NoEmit, NoVal),
+                         THEN <<Step("(begin (set! c18w@@ " \o ValExpr(sh, d, "0") \o ") 0)", "noncrash", NoEmit, "0"),
                                 Step("(hash-ref (hash c18v@@ 7) c18w@@)", "noncrash", NoEmit, "7")>>
                          ELSE <<Step("(hash-ref (hash c18v@@ 7) c18v@@)", "noncrash", NoEmit, "7")>>
     [] op = "write"   -> <<PrintStep(sh, d, "write")>>
@@ -547,9 +555,9 @@ DeepOpSteps(op, sh, d) ==
     [] op = "send"    -> <<Step(SendDeep(Walk(sh, d, "r")), "noncrash", NoEmit, "0")>>
     [] op = "collect" -> <<Step("(begin (#%gc-collect) " \o Walk(sh, d, "c18v@@") \o ")", "noncrash", NoEmit, "0")>>
     [] op = "drop"    -> <<Step("(begin (set! c18v@@ 0) (#%gc-collect) " \o AllocLoop \o ")", "noncrash", NoEmit, "5000")>>
-DeepDepths(sh) == DEPTHS \cup (IF sh.flat THEN BIGDEPTHS ELSE {})
-DeepCombos == {<<o, s, d>> \in (1..Len(DeepOpNames)) \X (1..Len(DeepShapes)) \X (DEPTHS \cup BIGDEPTHS) :
-                 d \in DeepDepths(DeepShapes[s])}
+MinOf(a, b) == IF a < b THEN a ELSE b
+DeepDepths(sh) == {MinOf(d, Cap(sh.name)) : d \in DEPTHS \cup (IF sh.flat THEN BIGDEPTHS ELSE {})}
+DeepCombos == UNION {{<<o, s, d>> : o \in 1..Len(DeepOpNames), d \in DeepDepths(DeepShapes[s])} : s \in 1..Len(DeepShapes)}
 \* last step of every deep case: the value is released INSIDE a step (otherwise it would die with
 \* the engine, outside any step, and a crash of that drop could not be attributed to the case)
 Release(op) == Step(IF op \in {"equal", "equalm", "hash"}
